@@ -5,6 +5,7 @@
 package c07
 
 import (
+	"os"
 	"encoding/binary"
 	"fmt"
 	"strings"
@@ -80,6 +81,17 @@ func (w *world) reaction(v6 bool) string {
 	tcpw.Quiesce()
 	time.Sleep(200 * time.Microsecond) // the IPv4 echo replier is a goroutine fed by a channel
 	tcpw.Quiesce()
+	// a frame produced by a goroutine that had not been scheduled yet must not be attributed to the next
+	// injection: wait until nothing new shows up
+	for n, k := w.l.Pending(), 0; k < 5; k++ {
+		time.Sleep(150 * time.Microsecond)
+		tcpw.Quiesce()
+		if m := w.l.Pending(); m == n {
+			break
+		} else {
+			n = m
+		}
+	}
 	ep := w.u4
 	if v6 {
 		ep = w.u6
@@ -410,4 +422,17 @@ func Gen(r *hx.Run) {
 		w.close()
 	}
 	ethWorld(r)
+}
+
+// DebugInject: one injection into a fresh world, for replaying a single op by hand.
+func DebugInject(v6 bool, views [][]byte) string {
+	r := hx.NewRun(os.TempDir()+"/c07dbg", "quick", 1)
+	w := newWorld(r)
+	defer w.close()
+	proto := header.IPv4ProtocolNumber
+	if v6 {
+		proto = header.IPv6ProtocolNumber
+	}
+	w.l.Inject(proto, "", views...)
+	return w.reaction(v6)
 }
